@@ -31,7 +31,7 @@ From Coq Require Import List ZArith NArith Bool.
 Import ListNotations.
 Open Scope Z_scope.
 
-Definition str := list N.
+Notation str := (list N) (only parsing).
 
 Fixpoint str_eqb (a b : str) : bool :=
   match a, b with
